@@ -301,6 +301,33 @@ class FakeOS:
     def scandir(self, p):
         return _ScanDir([_DirEntry(self.fs, p, n) for n in self.fs.listdir(p)])
 
+    # low-level descriptors, as far as lock / marker files need them (create-exclusively, close, unlink)
+    O_RDONLY, O_WRONLY, O_RDWR, O_CREAT, O_EXCL, O_TRUNC, O_APPEND = 0, 1, 2, 64, 128, 512, 1024
+
+    def open(self, p, flags, mode=0o777):
+        exists = self.fs.exists(p)
+        if flags & self.O_CREAT:
+            if exists and flags & self.O_EXCL:
+                raise FileExistsError(p)
+            if not exists:
+                if hasattr(self.fs, "create"):
+                    self.fs.create(p)          # one step of the step-level file system
+                else:
+                    self.fs.put(p, b"")
+        elif not exists:
+            raise FileNotFoundError(p)
+        self._nfd = getattr(self, "_nfd", 1000) + 1
+        return self._nfd
+
+    def close(self, fd):
+        return None
+
+    def write(self, fd, data):
+        return len(data)
+
+    def unlink(self, p):
+        self.fs.remove(p)
+
     pid = 4242
 
     def getpid(self):
